@@ -2297,8 +2297,8 @@ def analyse_copy_ops(ck, facts):
                 elif "?" in tg or unknown:
                     ck.incomplete("C06.state-transfer", "%s: not decided (%s)" % (key, "; ".join(unknown[:2]) or "source accessor not resolved"))
                 elif tg - {t for t in tg if t.startswith("p:")}:
-                    others = sorted(t for t in tg if not t.startswith("p:"))
-                    ck.ob("C06.state-transfer", key, False, "%s of the %s is defined from the source's %s, not from its %s: the copy filters with a different %s than the original" % (m, "result" if kind == "clone()" else "target", others, m, m), f.file, f.line)
+                    others = sorted(("the object's own " + t[2:]) if t.startswith("m:") else ("recomputed from " + t[8:]) if t.startswith("derived:") else t for t in tg if not t.startswith("p:"))
+                    ck.ob("C06.state-transfer", key, False, "%s of the %s is defined from %s, not from the source's %s: the copy filters with a different %s than the original" % (m, "result" if kind == "clone()" else "target", others, m, m), f.file, f.line)
                 else:
                     ck.ob("C06.state-transfer", key, False, "%s is read by %s but %s does not take it over from the source (the other copy-like operations do): the %s keeps a default / stale %s and imposes a different constraint than the original" % (
                         m, ", ".join(sorted({g.name for g in facts.functions if g.cls == cls and g.name and g.name.startswith("filter_") and any(n.get("k") == "Member" and n.get("n") == m for n in g.nodes())})[:4]) or "the filter methods", kind,
